@@ -624,7 +624,7 @@ class ParseContext:
         elif rule is None or rule.skip or rule.close_parent:
             if rule is not None and rule.close_parent:
                 self.open = max(0, self.open - 1)
-            elif rule is not None and get_node_type(cast(DOMNode, rule.skip)):
+            elif rule is not None and isinstance(rule.skip, lxml.etree._Element):
                 dom_ = cast(DOMNode, rule.skip)
 
             top = self.top
